@@ -15,6 +15,7 @@ package main
 
 import (
 	"encoding/json"
+	"fmt"
 	"sort"
 
 	"github.com/ccbrown/api-fu/graphql"
@@ -79,14 +80,17 @@ func probeNames(d *desc) []string {
 func runCase(kind, note string, d *desc, F []string, mk func() []*request) sexp.Node {
 	head := []sexp.Node{sexp.T("kind", sexp.Sym(kind)), sexp.T("note", sexp.Str(note)), d.sexp(), sexp.T("features", strs(F)...), sexp.T("all", strs(alphabet)...)}
 	logA, logB := &calls{}, &calls{}
-	sa, err := build(d, logA)
+	sa, err := build(d, logA, false)
 	if err != nil {
 		return sexp.T("case", append(head, sexp.T("accepted", sexp.Bool(false)))...)
+	}
+	if len(sa.NamedTypes()) != len(d.Types) {
+		panic(fmt.Sprintf("description lists %d types, schema registered %d: AdditionalTypes incomplete", len(d.Types), len(sa.NamedTypes())))
 	}
 	head = append(head, sexp.T("accepted", sexp.Bool(true)))
 	e := erase(d, F)
 	head = append(head, sexp.T("erased", e.sexp()))
-	sb, err := build(e, logB)
+	sb, err := build(e, logB, true)
 	if err != nil {
 		// the reduced schema cannot be built (or not even be expressed: something that survived still
 		// refers to a deleted type) — the model classifies why
@@ -99,7 +103,23 @@ func runCase(kind, note string, d *desc, F []string, mk func() []*request) sexp.
 	for i, rq := range reqs {
 		rs[i] = rq.sexp(a, b)
 	}
-	return sexp.T("case", append(head, sexp.T("requests", rs...))...)
+	head = append(head, sexp.T("requests", rs...))
+	// side c: the reduced definition handed to schema.New as it is (only its own AdditionalTypes):
+	// when that registers fewer types than the reduced description lists, a type that needs no
+	// feature was referenced only by deleted elements
+	logC := &calls{}
+	if sc, err := build(e, logC, false); err == nil && len(sc.NamedTypes()) != len(e.Types) {
+		c := &side{schema: sc, features: graphql.NewFeatureSet(alphabet...), log: logC}
+		var reg []string
+		for n := range sc.NamedTypes() {
+			reg = append(reg, n)
+		}
+		sort.Strings(reg)
+		rq := reqs[0] // the introspection probe
+		head = append(head, sexp.T("physical", sexp.T("names", strs(rq.names)...), sexp.T("registered", strs(reg)...),
+			sexp.T("a", rq.observe(a).List...), sexp.T("c", rq.observe(c).List...)))
+	}
+	return sexp.T("case", head...)
 }
 
 func randomRequests(r *rng.R, d *desc, std bool, nChains, nDocs int) []*request {
@@ -172,6 +192,7 @@ func main() {
 				if r.Chance(1, 4) {
 					what += "+" + mutate(r, d)
 				}
+				d.completeAdditional()
 				F := randSubset(r, alphabet)
 				return runCase("hostile", what, d, F, func() []*request { return randomRequests(r, d, false, 2, 2) })
 			})
